@@ -140,6 +140,9 @@ func GenConfig(t *rapid.T, tier string, o GenOpts) Config {
 	if rapid.IntRange(0, 5).Draw(t, "cmp") == 0 {
 		c.Cmp = "scaled"
 	}
+	if c.Val == VNil {
+		c.Format, c.Marshaler = ref.FormatBinary, "json"
+	}
 	if o.NoCustomV1 && c.Format == ref.FormatV1 {
 		c.Marshaler = "json"
 	}
